@@ -316,6 +316,9 @@ RULES = {
     "R11": [(".store(", ".vstore("), (".load(", ".vload(")],
     # R4: fn-pointer alias becomes an opaque shim
     "R4": [("FormatFunction", "VFormatFn")],
+    # R12: `v.into_iter().enumerate()` (Iterator::enumerate is a provided trait method: Verus accepts no specification for
+    # it) becomes the shim `v.venumerate()`: the eagerly built vector of (index, element) pairs
+    "R12": [(".into_iter().enumerate()", ".venumerate()")],
     # R5l (computed, see apply_rule): every byte-string literal b".." (Verus gives byte-string literals no value)
     # becomes a constant VLIT_<hex bytes>, defined at the template's `//@ literals` line as an exec const whose body is
     # the literal and whose view is the sequence of its bytes (same scheme as R5 bytesconst)
